@@ -6,6 +6,7 @@ import (
 	"bytes"
 	"encoding/binary"
 	"fmt"
+	"sort"
 	"strings"
 
 	"github.com/contiv/libOpenflow/util"
@@ -79,6 +80,94 @@ func kindsIn(n *wire.N, into map[string]bool) {
 		for _, c := range l {
 			kindsIn(c, into)
 		}
+	}
+}
+
+// featuresIn lists what a tree contains at the granularity the value enumeration needs: every
+// element kind, every (kind, field name) that is present (optional members count only when they
+// are there), every match field by name with and without mask.
+func featuresIn(n *wire.N, into map[string]bool) {
+	if n == nil {
+		return
+	}
+	k := n.K
+	if n.K == "oxm" {
+		cls := uint16(n.U["Class"])
+		if cls == 0xffff {
+			k = fmt.Sprintf("oxm:exp:%d", n.U["Field"])
+		} else if i := wire.OxmTable[[2]uint16{cls, uint16(n.U["Field"])}]; i != nil {
+			k = "oxm:" + i.Name
+		}
+		if n.U["HasMask"] == 1 {
+			k += "/masked"
+		}
+		if i := wire.OxmTable[[2]uint16{cls, uint16(n.U["Field"])}]; i != nil && i.Width == 0 {
+			k += fmt.Sprintf("/len%d", len(n.B["Value"]))
+		}
+	}
+	into[k] = true
+	for f := range n.U {
+		into[k+"."+f] = true
+	}
+	for f, b := range n.B {
+		if len(b) > 0 {
+			into[k+"."+f] = true
+		}
+	}
+	for f, c := range n.S {
+		into[k+"."+f] = true
+		featuresIn(c, into)
+	}
+	for f, l := range n.L {
+		if len(l) > 0 {
+			into[k+"."+f] = true
+		}
+		for _, c := range l {
+			featuresIn(c, into)
+		}
+	}
+}
+
+// structureKey is the canonical print of a tree's structure without its values.
+func structureKey(n *wire.N) string {
+	fs := map[string]bool{}
+	featuresIn(n, fs)
+	ks := make([]string, 0, len(fs))
+	for k := range fs {
+		ks = append(ks, k)
+	}
+	sort.Strings(ks)
+	return strings.Join(ks, ";")
+}
+
+// baseSelector picks, from an enumeration of trees, the ones that contribute a (root, feature) pair
+// not seen before: every field of every kind, in every optional-member combination that introduces
+// a field, ends up in at least one base under every root kind it occurs under.
+type baseSelector struct {
+	seen  map[string]bool
+	bases []*wire.N
+	max   int
+}
+
+func (s *baseSelector) offer(n *wire.N) {
+	if s.seen == nil {
+		s.seen = map[string]bool{}
+	}
+	if s.max > 0 && modelSize(n) > s.max {
+		return
+	}
+	fs := map[string]bool{}
+	featuresIn(n, fs)
+	root := rootSig(n)
+	fresh := false
+	for f := range fs {
+		if !s.seen[root+"|"+f] {
+			s.seen[root+"|"+f] = true
+			fresh = true
+		}
+	}
+	if fresh {
+		s.bases = append(s.bases, n)
 	}
 }
 
